@@ -59,6 +59,20 @@ def scenarios(tier, rng):
                 if big and b not in (10, 2**64 - 1, 10**19, 0):
                     continue
                 sc.append({"g": "text", "op": "tobase", "bits": bits, "a": tobytes(a), "base": tobytes(b)})
+        # --- to_base, base sweep: one base of every bit length 2..64 (a random one, and alternately 2^k - 1 / 2^k + 1; all four
+        # in the thorough tier) - a fast path chosen by the SIZE of the base must agree with the general path on each size class
+        if bits in ((64, 128, 256) if quick else (60, 64, 65, 127, 128, 129, 256, 257, 521)):
+            for k in range(2, 65):
+                lo, hi = 1 << (k - 1), (1 << k) - 1
+                bs = [rng.randrange(lo, hi + 1), hi if k % 2 else min(lo + 1, hi)]
+                if not quick:
+                    bs += [lo, hi, min(lo + 1, hi), rng.randrange(lo, hi + 1)]
+                for b in dict.fromkeys(bs):
+                    for a in dict.fromkeys([mx, rand_value(rng, bits), min(mx, 1 << 100), min(mx, (1 << 64) + 1)]):
+                        sc.append({"g": "text", "op": "tobase", "bits": bits, "a": tobytes(a), "base": tobytes(b)})
+                # the same size classes for from_base_le / from_base_be: the digits of a value that fits and of 2^BITS
+                for v in (rand_value(rng, bits), mx + 1):
+                    sc.append({"g": "text", "op": "frombase", "bits": bits, "base": tobytes(bs[0]), "ds": [tobytes(d) for d in digits_of(v, bs[0])]})
         # --- from_base
         for b in ([0, 1] + BASES):
             if (big or lean) and b not in (10**19, 2**64 - 1, 1):
